@@ -117,7 +117,8 @@ def run_case(ctx, col, case):
             # the message may be empty, blank or span lines (str(exc) of an argument-less exception,
             # a traceback): the sequence must still be complete and the whole text carried
             msg = rng.choice(["door open", "limit switch", "E-STOP 42", "", " ", "limit switch\nZ axis",
-                              "Traceback:\r\n  File x\r\nTimeoutError", "\nleading break", "x"])
+                              "Traceback:\r\n  File x\r\nTimeoutError", "\nleading break", "x",
+                              "Hotend at 285 °C", "Überhitzung – µ-switch"])
             pieces = [p.strip() for p in msg.splitlines() if p.strip()]
             col.count("halt_message_class:" + ("empty" if not pieces else "multi-line" if len(pieces) > 1 else "plain"))
             col.count("shutdown_ops_checked")
